@@ -29,7 +29,12 @@ class AnalysisBroken(Exception):
     Reported as exit code 2: never a pass, never a violation."""
 
 
+STD_OVERRIDE = None        # set by ./check when a property's rules are repeated under another language level (thorough tier)
+
+
 def clang_cmd(std="gnu++17", defines=(), extra=()):
+    if STD_OVERRIDE and std == "gnu++17":
+        std = STD_OVERRIDE
     cmd = ["clang++", "-std=" + std, "-I" + os.path.join(REPO, "include")] + EXTRA_INC
     cmd += ["-fsyntax-only", "-UNDEBUG", "-Wno-everything"]
     for d in defines:
@@ -234,6 +239,8 @@ def compile_only(src_text, std="gnu++17", compiler="clang++", defines=(), extra=
                                      dir=os.environ.get("TMPDIR", "/tmp")) as f:
         f.write(src_text)
         path = f.name
+    if STD_OVERRIDE and std == "gnu++17":
+        std = STD_OVERRIDE
     try:
         cmd = [compiler, "-std=" + std, "-I" + os.path.join(REPO, "include")] + EXTRA_INC + ["-fsyntax-only", "-w"]
         if error_limit0:
